@@ -68,6 +68,13 @@ class TupleT(Ty):
     def __init__(self, *elems):
         self.elems = tuple(elems)
 
+    def __eq__(self, other):
+        # field names of a namedtuple (`names`) are a convenience for attribute access, not part of the type
+        return type(self) is type(other) and self.elems == other.elems
+
+    def __hash__(self):
+        return hash(repr(self))
+
     def __repr__(self):
         return 'Tuple[%s]' % ','.join(repr(e) for e in self.elems)
 
